@@ -151,6 +151,18 @@ Additions for synergy.py / data.py / models/main.py (calculate_synergy, create_s
                       declared numeric type (exact rationals for floats); an operator that is not declared is refused
   cfg["float_consts"] {repr of a float literal: (Gallina term, type)}: the only float literals accepted
   `a[i, j] = v`       a : list (list T) with cfg["index_error"] = tag: PyRt.list_set2 (both indices wrap once, IndexError outside)
+Additions for nextflow/scripts/batchie.py (the orchestration script):
+  cfg["monad"]        first use (Orchestrate.sres): errors that carry data - the directory a RuntimeError names, the actions done
+                      before another exception; raise templates (cfg["raises"]) build the error value from the variables in scope
+  cfg["tail_dup"]     True: an `if` one of whose branches MAY continue / return / break without always doing so (an early
+                      `return` nested under a second test) is translated by making the statements that follow the `if` the
+                      tail of both branches - `if c: A else: B; rest` is `if c then [A; rest] else [B; rest]`, which is what Python
+                      executes on either path (a jump inside A or B ends that path as usual).  A variable only one branch assigns
+                      is bound only in that branch's copy of the tail.  Without the key such an `if` is refused as before.
+  cfg["retype"]       {variable: [other types]}: a plain assignment `x = e` whose value has exactly one of the other declared
+                      types (not the one of cfg["vars"]) rebinds x at that type (`screen_metadata = screen_metadata[0]`: the list
+                      of matches becomes its first element); later reads see the new type.  Inside a loop or an `if` that
+                      carries x the state tuple keeps the old type, so the generated term is ill-typed (fail closed).
 """
 import ast
 
@@ -929,6 +941,11 @@ class Tr:
                 if ty[0] == "alt":     # declared `T1 | T2`: this assignment binds the variable at the alternative the value has
                     if vt not in ty[1]:
                         raise Unsupported("assignment of a %s to %s, declared %s" % (vt, tgt.id, ty))
+                if tgt.id[:-len(SUFFIX)] in self.cfg.get("retype", {}) and vt != ty and vt not in (NONE_T, EMPTY_T):
+                    # cfg["retype"]: a variable the source re-uses at another declared type (x = x[0])
+                    alts = [parse_type(t) for t in self.cfg["retype"][tgt.id[:-len(SUFFIX)]]]
+                    if vt not in alts:
+                        raise Unsupported("assignment of a %s to %s, declared %s or %s" % (vt, tgt.id, ty, alts))
                     ty = vt
                 v = self.need(v, vt, ty, hoist)
                 env2 = dict(env)
@@ -994,7 +1011,10 @@ class Tr:
         if isinstance(st, ast.Return):
             if st.value is None:
                 st = ast.Return(value=ast.Constant(value=None))     # `return` is `return None`
+            mark = len(hoist)
             v, vt = self.expr(st.value, env, hoist)
+            if self.ret_type[0] == "tuple" and isinstance(st.value, ast.Tuple):
+                del hoist[mark:]      # need_ret evaluates the components itself: do not bind their hoisted calls twice
             v = self.need_ret(v, vt, st.value, env, hoist)
             return self.bind_hoist(hoist, k(env, jump=("return", v)), ind)
         if isinstance(st, ast.If) and self.default_idiom(st, env) is not None:
@@ -1017,6 +1037,11 @@ class Tr:
                 # the rest of the block runs only after the branch that does not jump
                 tb = self.block(st.body + ([] if bj else rest), env, k, ind + "  ")
                 te = self.block(st.orelse + ([] if oj else rest), env, k, ind + "  ")
+                return self.bind_hoist(hoist, "%sif %s then\n%s%selse\n%s" % (ind, c, tb, ind, te), ind)
+            if self.has_jump(st.body + st.orelse, (ast.Continue, ast.Return, ast.Break)) and self.cfg.get("tail_dup"):
+                # cfg["tail_dup"]: the statements after the `if` are the tail of BOTH branches (what Python executes on either path)
+                tb = self.block(st.body + rest, env, k, ind + "  ")
+                te = self.block(st.orelse + rest, env, k, ind + "  ")
                 return self.bind_hoist(hoist, "%sif %s then\n%s%selse\n%s" % (ind, c, tb, ind, te), ind)
             if self.has_jump(st.body + st.orelse, (ast.Continue, ast.Return, ast.Break)):
                 raise Unsupported("an if with a branch that may, but need not, continue/return/break: " + ast.unparse(st.test))
